@@ -209,6 +209,7 @@ func init() {
 		Assume: []string{"worker count pinned to 1, pools never reuse", "corpus files are produced by this package's encoder and by the harness's RIFF writer"},
 		Run: func(e *fw.Env, r *fw.Result) {
 			pin()
+			corpusThorough = !e.Quick()
 			files := stillCorpus(e.Seed, e.Repo)
 			k := 0
 			total := 0
@@ -254,6 +255,7 @@ func init() {
 			pin()
 			var rp c17Replay
 			json.Unmarshal(raw, &rp)
+			corpusThorough = true
 			for _, f := range stillCorpus(rp.Seed, e.Repo) {
 				if f.Name == rp.File {
 					ref, bad := c17Full(f)
